@@ -32,7 +32,7 @@ M("c01-seed-dead", "C01", ("pyramid.py", "            if pos.n == self.depth - 1
 M("c01-stop-n0", "C01", ("pyramid.py", "                if pos == self._apex:\n                    break", "                if pos.n == 0:\n                    break"))
 M("c01-exit-first-empty", "C01", ("pyramid.py", """            pos = ready_queue.get(True, timeout=1)
         except Empty:
-            if done_event.is_set():
+            if done:
                 break
             continue
 
@@ -52,7 +52,7 @@ M("c03-last-leaf-skipped", "C03", ("pyramid.py", "                if is_leaf:\n 
 M("c03-no-join-workers", "C03", ("par_util.py", "    done_event.set()\n\n    for w in workers:\n        w.join()", "    done_event.set()\n\n    for w in workers[1:]:\n        w.join()"))
 M("c03-mtan-worker-exit-empty", "C03", ("multi_tan.py", """                image, desc = queue.get(True, timeout=1)
         except Empty:
-            if done_event.is_set():
+            if done:
                 break
             continue""", """                image, desc = queue.get(True, timeout=1)
         except Empty:
